@@ -164,15 +164,17 @@ fn process_file_into(
         #[cfg(feature = "verif_hooks")]
         verif_hooks::crash_point("after_needs_rebuild", lalrpop_file);
 
-        // Load the LALRPOP source text for this file:
-        let file_text = Rc::new(FileText::from_path(lalrpop_file.to_path_buf())?);
-
+        // Remove the old output first: whatever fails from here on (including reading
+        // the source text), a failed build must not leave an output behind.
         if let Some(parent) = rs_file.parent() {
             fs::create_dir_all(parent)?;
         }
         remove_old_file(rs_file)?;
         #[cfg(feature = "verif_hooks")]
         verif_hooks::crash_point("after_remove", lalrpop_file);
+
+        // Load the LALRPOP source text for this file:
+        let file_text = Rc::new(FileText::from_path(lalrpop_file.to_path_buf())?);
 
         // Store the session and file-text in TLS -- this is not
         // intended to be used in this high-level code, but it gives
